@@ -60,6 +60,59 @@ fn c14_exp(ctx: &mut Ctx) {
             Dd::new(if ctx.flag() { -0.0 } else { 0.0 }, 0.0)
         }
     };
+    check_exp(ctx, x);
+}
+
+/// every argument the range reduction treats as exact: x = k/128 with a zero low word
+fn c14_exp_grid(ctx: &mut Ctx) {
+    let i = ctx.word();
+    let k = (i >> 1) as f64;
+    let hi = if i & 1 == 1 { -k / 128.0 } else { k / 128.0 };
+    ctx.label("arg:exact-grid");
+    check_exp(ctx, Dd::new(hi, 0.0));
+    ctx.set_nontrivial(true);
+}
+
+fn c14_exp2_grid(ctx: &mut Ctx) {
+    force_grid(ctx, 64.0, false);
+    c14_exp2(ctx);
+    ctx.set_nontrivial(true);
+}
+
+fn c14_exp_m1_grid(ctx: &mut Ctx) {
+    force_grid(ctx, 128.0, false);
+    c14_exp_m1(ctx);
+    ctx.set_nontrivial(true);
+}
+
+/// ln, log2, log10 at k/128 (0 < x <= 64), the integers up to 4096 and 10^k (k <= 22)
+fn c15_logs_grid(ctx: &mut Ctx) {
+    let i = ctx.word();
+    let (which, j) = (i % 3, i / 3);
+    let hi = if j < 8192 {
+        (j + 1) as f64 / 128.0
+    } else if j < 8192 + 4032 {
+        (j - 8192 + 65) as f64
+    } else {
+        10f64.powi((j - 8192 - 4032) as i32 + 1)
+    };
+    ctx.label("arg:exact-grid");
+    c15_logs_eval(ctx, which, Dd::new(hi, 0.0));
+    ctx.set_nontrivial(true);
+}
+
+fn c15_ln_1p_grid(ctx: &mut Ctx) {
+    let i = ctx.word();
+    let hi = (i as f64 - 127.0) / 128.0;
+    if hi == 0.0 {
+        return;
+    }
+    ctx.forced = Some((hi, 0.0));
+    c15_ln_1p(ctx);
+    ctx.set_nontrivial(true);
+}
+
+fn check_exp(ctx: &mut Ctx, x: Dd) {
     x.key(ctx);
     note_dd(ctx, "x", x);
     let Some(r) = call(ctx, "exp", x, inh::exp) else { return };
@@ -120,6 +173,7 @@ fn c14_exp2(ctx: &mut Ctx) {
         }
         _ => arg(ctx, &Strata { pivots: &[], emin: -1000, emax: 12, umax: 3000.0, positive_only: false }),
     };
+    let x = forced_or(ctx, x);
     x.key(ctx);
     note_dd(ctx, "x", x);
     let Some(r) = call(ctx, "exp2", x, inh::exp2) else { return };
@@ -177,6 +231,7 @@ fn c14_exp_m1(ctx: &mut Ctx) {
         }
     };
     let x = if x.hi > 700.0 { Dd::new(x.hi / 2.0, 0.0) } else { x };
+    let x = forced_or(ctx, x);
     x.key(ctx);
     note_dd(ctx, "x", x);
     let Some(r) = call(ctx, "exp_m1", x, inh::exp_m1) else { return };
@@ -415,12 +470,15 @@ pub fn c14() -> Property {
     let g = |name, eval, quick, thorough| SubCheck { name, kind: Kind::Generated { words: 40, max_items: 0 }, eval, quick, thorough };
     Property {
         id: "C14",
-        rule: "exp: x = y/2 + n/128 + delta over every table entry (y in -1200..1400, n in -32..32), uniform/log-uniform in [-700,700], pivots ±709, 710, -750, 700, -600 with ulp/2^-j offsets, zero; exp2: k + r with r across (-1/2,1/2] incl. ±1/2 and tiny, pivots -1080..1024, all 2045 integers k (complete); exp_m1: log-uniform 2^-1000..2^-8, both sides of -ln2, ln1.5, -0.70, 0.41, ±2^-8, up to 700; powf: x in [2^-30,2^30] dense near 1, |y| <= 10 (uniform, small, integers), negative x with integer / non-integer y, zero base / zero exponent. Reference: 384-bit Hp (1/64 of cases re-verified at 512 bits). non-trivial = non-zero low word, or a special point (zero, overflow/underflow region, sign rule); distinct = distinct argument bits",
+        rule: "exp: x = y/2 + n/128 + delta over every table entry (y in -1200..1400, n in -32..32), uniform/log-uniform in [-700,700], pivots ±709, 710, -750, 700, -600 with ulp/2^-j offsets, zero; exp2: k + r with r across (-1/2,1/2] incl. ±1/2 and tiny, pivots -1080..1024, all 2045 integers k (complete); exp_m1: log-uniform 2^-1000..2^-8, both sides of -ln2, ln1.5, -0.70, 0.41, ±2^-8, up to 700; powf: x in [2^-30,2^30] dense near 1, |y| <= 10 (uniform, small, integers), negative x with integer / non-integer y, zero base / zero exponent. Reference: 384-bit Hp (1/64 of cases re-verified at 512 bits). non-trivial = non-zero low word, or a special point (zero, overflow/underflow region, sign rule); distinct = distinct argument bits Exact-grid sub-checks (complete enumerations): the generated sub-check evaluated at every argument of the form +-k/128 (or k/16, k/64, k/1024, integers, 10^k; see DESIGN 11.5) with a zero low word.",
         assumptions: vec!["reference functions: oracle::Hp at 384 bits, validated against mpmath vectors to 2^-300".into()],
         subchecks: vec![
             g("exp", c14_exp, 300_000, 8_000_000),
             g("exp2", c14_exp2, 300_000, 8_000_000),
             SubCheck { name: "exp2_integers", kind: Kind::Enumerated { n: 2045 }, eval: c14_exp2_int, quick: 0, thorough: 0 },
+            SubCheck { name: "exp_grid", kind: Kind::Enumerated { n: 2 * (128 * 712) }, eval: c14_exp_grid, quick: 0, thorough: 0 },
+            SubCheck { name: "exp2_grid", kind: Kind::Enumerated { n: 2 * 64 * 1000 }, eval: c14_exp2_grid, quick: 0, thorough: 0 },
+            SubCheck { name: "exp_m1_grid", kind: Kind::Enumerated { n: 2 * 128 * 64 }, eval: c14_exp_m1_grid, quick: 0, thorough: 0 },
             g("exp_m1", c14_exp_m1, 300_000, 8_000_000),
             g("powf", c14_powf, 200_000, 6_000_000),
             g("powf_sign_and_spellings", c14_powf_sign, 200_000, 6_000_000),
@@ -531,9 +589,13 @@ fn nonpositive_arg(ctx: &mut Ctx) -> Dd {
 
 fn c15_logs(ctx: &mut Ctx) {
     let which = ctx.below(3);
-    let (name, f): (&str, fn(TwoFloat) -> TwoFloat) = [("ln", inh::ln as fn(TwoFloat) -> TwoFloat), ("log2", inh::log2), ("log10", inh::log10)][which as usize];
     let domain_err = ctx.chance(1, 25);
     let x = if domain_err { nonpositive_arg(ctx) } else { log_arg(ctx) };
+    c15_logs_eval(ctx, which, x)
+}
+
+fn c15_logs_eval(ctx: &mut Ctx, which: u64, x: Dd) {
+    let (name, f): (&str, fn(TwoFloat) -> TwoFloat) = [("ln", inh::ln as fn(TwoFloat) -> TwoFloat), ("log2", inh::log2), ("log10", inh::log10)][which as usize];
     x.key(ctx);
     ctx.key_u64(which);
     ctx.note("function", || name.to_string());
@@ -673,6 +735,7 @@ fn c15_ln_1p(ctx: &mut Ctx) {
             Dd::new(if ctx.flag() { -0.0 } else { 0.0 }, 0.0)
         }
     };
+    let x = forced_or(ctx, x);
     x.key(ctx);
     note_dd(ctx, "x", x);
     let Some(r) = call(ctx, "ln_1p", x, inh::ln_1p) else { return };
@@ -708,11 +771,13 @@ pub fn c15() -> Property {
     let g = |name, eval, quick, thorough| SubCheck { name, kind: Kind::Generated { words: 40, max_items: 0 }, eval, quick, thorough };
     Property {
         id: "C15",
-        rule: "positive valid x log-uniform over [2^-1000,2^960], dense around 1 (1 ± 2^-j ± ulps with every low-word class, and hi = 1 with the distance in lo alone), powers of two ± 1 ulp, all 1961 exact powers of two (complete) for log2; non-positive arguments; ln_1p: |x| <= 2^-8 log-uniform to 2^-1000, [0.75, 2^960], the middle band, a geometric approach to -1 (1 + x = 2^-j m, then hi = -1 with a positive low word), pivots 0.75/±2^-8/-0.5/0.41, x <= -1. Reference: 384-bit Hp forming 1 + x / x - 1 exactly. non-trivial = non-zero low word or a special point; distinct = distinct argument bits",
+        rule: "positive valid x log-uniform over [2^-1000,2^960], dense around 1 (1 ± 2^-j ± ulps with every low-word class, and hi = 1 with the distance in lo alone), powers of two ± 1 ulp, all 1961 exact powers of two (complete) for log2; non-positive arguments; ln_1p: |x| <= 2^-8 log-uniform to 2^-1000, [0.75, 2^960], the middle band, a geometric approach to -1 (1 + x = 2^-j m, then hi = -1 with a positive low word), pivots 0.75/±2^-8/-0.5/0.41, x <= -1. Reference: 384-bit Hp forming 1 + x / x - 1 exactly. non-trivial = non-zero low word or a special point; distinct = distinct argument bits Exact-grid sub-checks (complete enumerations): the generated sub-check evaluated at every argument of the form +-k/128 (or k/16, k/64, k/1024, integers, 10^k; see DESIGN 11.5) with a zero low word.",
         assumptions: vec!["reference functions: oracle::Hp at 384 bits, validated against mpmath vectors to 2^-300".into()],
         subchecks: vec![
             g("ln_log2_log10", c15_logs, 450_000, 12_000_000),
             SubCheck { name: "log2_pow2", kind: Kind::Enumerated { n: 1961 }, eval: c15_log2_pow2, quick: 0, thorough: 0 },
+            SubCheck { name: "logs_grid", kind: Kind::Enumerated { n: 3 * (8192 + 4032 + 22) }, eval: c15_logs_grid, quick: 0, thorough: 0 },
+            SubCheck { name: "ln_1p_grid", kind: Kind::Enumerated { n: 128 * 64 + 128 }, eval: c15_ln_1p_grid, quick: 0, thorough: 0 },
             g("log_base", c15_log_base, 100_000, 3_000_000),
             g("ln_1p", c15_ln_1p, 300_000, 8_000_000),
         ],
